@@ -859,11 +859,6 @@ func (vfs *OrefaFS) Rename(oldname, newname string) error {
 		return &os.LinkError{Op: op, Old: oldname, New: newname, Err: vfs.err.NotADirectory}
 	}
 
-	if oChild == oParent {
-		// the root directory can't be moved.
-		return &os.LinkError{Op: op, Old: oldname, New: newname, Err: vfs.err.InvalidArgument}
-	}
-
 	if nChildOk && nChild.mode.IsDir() && !(nChild == oChild && oldname != newname) {
 		// an existing directory is never replaced (see os.Rename).
 		err := vfs.err.FileExists
@@ -872,6 +867,11 @@ func (vfs *OrefaFS) Rename(oldname, newname string) error {
 		}
 
 		return &os.LinkError{Op: op, Old: oldname, New: newname, Err: err}
+	}
+
+	if oChild == oParent {
+		// the root directory can't be moved.
+		return &os.LinkError{Op: op, Old: oldname, New: newname, Err: vfs.err.InvalidArgument}
 	}
 
 	if strings.HasPrefix(nAbsPath, oAbsPath+string(vfs.PathSeparator())) {
